@@ -71,10 +71,22 @@ def check_cleanup_guards(ctx: Ctx) -> None:
                             cands.append((ast.Constant(value=Ellipsis), d.node))
                 else:
                     cands.append((y, n))
+                def strong_at(v: ast.AST, at: Node) -> bool:
+                    """the isinstance(..., StrongEmphasis) test is known where this value is taken"""
+                    forms = {norm(v), canon(v, at)}
+                    for a, truth, b in guard_atoms(prog, fi, at):
+                        if truth and isinstance(a, ast.Call) and isinstance(a.func, ast.Name) and a.func.id == "isinstance" and len(a.args) == 2 \
+                                and ({norm(a.args[0]), canon(a.args[0], b)} & forms) \
+                                and _class_names(ctx, fi, expand_expr(prog, fi, a.args[1], b)) == ["marko.inline.StrongEmphasis"]:
+                            return True
+                    return False
+
                 ok_all = bool(cands)
-                for v, at in cands:
-                    if isinstance(v, ast.Constant) and v.value is None:
-                        continue
+                real = [(v, at) for v, at in cands if not (isinstance(v, ast.Constant) and v.value is None)]
+                if not strong and real and all(strong_at(v, at) for v, at in real):
+                    # the test sits where the child is picked (`y = x.children[0] if/when isinstance(...)`, else None)
+                    strong = True
+                for v, at in real:
                     if canon(v, at) == f"{obj}.children[0]" and (len_is_one(at) or len_is_one(n)):
                         continue
                     ok_all = False
@@ -187,7 +199,18 @@ def check_spacing_arms(ctx: Ctx) -> None:
     ctx.ob("R-DECISION-spacing", f"{lm.qual} :: one arm per mode", set(members) == set(want) and all(outcomes[m].get(k) for m in members),
            f"modes are {members}; each must decide `{k}`", where(lm, lm.node))
     # _can_be_tight looks at every item's children
+    # (found by role: the one callee of the list renderer that iterates over `.children` and compares a len())
     cbt = next((m for m in lm.cls.methods.values() if m.name == "_can_be_tight"), None) if lm.cls else None
+    if cbt is None:
+        cands = []
+        for c in ast.walk(lm.node):
+            if isinstance(c, ast.Call):
+                t = prog.resolve_call(lm, c)
+                if isinstance(t, list) and len(t) == 1 and not isinstance(t[0].node, ast.Lambda) and t[0] not in cands:
+                    src = norm(t[0].node)
+                    if "children" in src and "len(" in src and not t[0].name.startswith("render"):
+                        cands.append(t[0])
+        cbt = cands[0] if len(cands) == 1 else None
     if cbt is not None:
         cf = prog.flow(cbt)
         iters = [h.ast.iter for h in cf.cfg.nodes if h.kind == "for"]
